@@ -30,7 +30,10 @@ reads, each read one step (it races with the other threads' `Swap`s).
 Ghost state (never read by a guard or by a non-ghost assignment): `loads`, `evals` count calls;
 `holds` says which thread owns a slot; `cyc` which threads were handed the cycle error;
 `ptime`/`clock` time-stamp publications, `seen`/`expd` record a walker's reads (used by the
-deadlock-freedom proof); `ftime`/`fclock` time-stamp completions (used by the cycle-report proof).
+deadlock-freedom proof); `ftime`/`fclock` time-stamp completions (used by the cycle-report proof); `order` lists
+the labels in the order in which their outcome was computed — the failed `LoadTarget` of an unknown target, the
+rest of `Evaluate` (in dawn: the up-to-date test and the body) of a known one — and is what the incremental
+engine's theorems consume (`Dawn/Props/LinkRunnerBuild.lean`).
 
 `live` is the `sync.WaitGroup` `runner.running` added by the repair of D17 (`Run` used to return as soon
 as the requested target had finished, while targets started by a target that then detected a cycle were
@@ -114,6 +117,7 @@ structure State where
   expd     : Label → List Label
   ftime    : Label → Nat
   fclock   : Nat
+  order    : List Label            -- labels in the order their outcome was computed (failed load / rest of `Evaluate`)
 
 def upd {α : Type} (f : Label → α) (l : Label) (v : α) : Label → α := fun x => if x = l then v else f x
 
@@ -139,6 +143,7 @@ def init (P : Params) : State where
   expd := fun _ => []
   ftime := fun _ => 0
   fclock := 0
+  order := []
 
 /-- what `Evaluate` does with the results of its `EvaluateTargets` call (`target.go:55-62` and the body) -/
 def localOutcome (res : Results) (bodyOk : Bool) : Status × Err :=
@@ -168,6 +173,7 @@ def stepTgt (P : Params) (s : State) (l : Label) : PC → Option State
     else some { s with capacity := s.capacity - 1, holds := upd s.holds l true, pc := upd s.pc l (some .load) }
   | .load =>
     some { s with loads := upd s.loads l (s.loads l + 1),
+                  order := if P.known l then s.order else s.order ++ [l],
                   pc := upd s.pc l (some (if P.known l then .evalStart else .finish .failed .unknown)) }
   | .evalStart =>
     some { s with evals := upd s.evals l (s.evals l + 1), pc := upd s.pc l (some .exit1) }
@@ -206,7 +212,8 @@ def stepTgt (P : Params) (s : State) (l : Label) : PC → Option State
                        pc := upd s.pc l (some (.evalRest res)) }
   | .evalRest res =>
     let o := localOutcome res (P.bodyOk l)
-    some { s with cyc := upd s.cyc l (s.cyc l || res.isNone), pc := upd s.pc l (some (.finish o.1 o.2)) }
+    some { s with cyc := upd s.cyc l (s.cyc l || res.isNone), order := s.order ++ [l],
+                  pc := upd s.pc l (some (.finish o.1 o.2)) }
   | .finish st e =>
     some { s with status := upd s.status l st, err := upd s.err l e,
                   ftime := upd s.ftime l s.fclock, fclock := s.fclock + 1,
